@@ -923,6 +923,7 @@ func main() {
 		n := "rotation4/" + c.name
 		secs = append(secs, h.Section{Name: n, Body: rotationBody(c, n, 4, false), Bound: -1, Serial: true, Tiers: "thorough"})
 	}
+	secs = append(secs, h.Section{Name: "cryptofmt-output-prefix", Body: cryptofmtSection, Bound: -1})
 	h.Main("C05", "model_checking",
 		"per primitive class (AEAD, DAEAD, MAC, signature, hybrid, streaming AEAD, PRF set, JWT MAC, JWT signature; 2-3 key types each incl. legacy non-full primitives via KmsEnvelopeAeadKey / custom key managers): (a) all keysets of size 1-2 over {shapes} x {ENABLED,DISABLED,DESTROYED} x ids {0,1,0xFFFFFFFF} x material {0,1} x every primary x both orders, size 3 over a reduced alphabet; (b) BFS to fixpoint over keyset.Manager histories (<= 3 keys, thorough also <= 4 keys over a reduced Add alphabet; SetPrimary/Enable/Disable/Delete). A state is one keyset / manager state; a transition is one probe (an output of a single key of the universe, or the wrapped primitive's own output judged by a single-key primitive) whose verdict and monitoring events are compared with the selection model verif/ref/selection.go. An execution is non-trivial when a wrapped primitive was built and probed.",
 		secs)
